@@ -46,6 +46,15 @@
 (*              otherKeyper  another keyper's valid share for the identity *)
 (*              otherId      snd's valid share for another identity        *)
 (*              otherEon     snd's share under another eon key             *)
+(*              swap         snd's VALID share for the identity of the     *)
+(*                           partner entry: the next entry (cyclically)    *)
+(*                           that carries a different identity; without    *)
+(*                           such an entry it is an otherId share.  In a   *)
+(*                           message <<[a,swap],[b,swap]>> the shares are  *)
+(*                           exactly the genuine ones of a and b, attached *)
+(*                           to the wrong identities: their sum equals the *)
+(*                           sum of the genuine shares, no single one      *)
+(*                           verifies for its identity                     *)
 (*              garbage      some other point of G1                        *)
 (*              badlen       bytes of the wrong length (shlib decodes them *)
 (*                           silently as the point at infinity)            *)
@@ -54,6 +63,9 @@
 (*              storedEqual  the wrong key W(identity) that receiver       *)
 (*                           states "wrong1"/"wrongAll" have stored        *)
 (*              wrong        another decodable wrong key                   *)
+(*              swap         THE epoch secret key of the partner entry's   *)
+(*                           identity (partner as for shares; without one: *)
+(*                           a wrong key)                                  *)
 (*              badlen, undecodable  as above                              *)
 (* m.extra     "none" | "gnosis" | "service" | "optimism" (oneof extra)    *)
 (*                                                                         *)
@@ -80,8 +92,8 @@ WorldRanks == 1..(MaxN + 1)
 MsgTypes   == {"shares", "keys"}
 Sets       == {"MemberOk", "NotMember", "NoResult", "Failed", "RestartNoResult", "RestartOk",
                "Unknown", "Overflow", "Wrap32"}
-ShareKinds == {"valid", "otherKeyper", "otherId", "otherEon", "garbage", "badlen", "undecodable"}
-KeyKinds   == {"valid", "storedEqual", "wrong", "badlen", "undecodable"}
+ShareKinds == {"valid", "otherKeyper", "otherId", "otherEon", "swap", "garbage", "badlen", "undecodable"}
+KeyKinds   == {"valid", "storedEqual", "wrong", "swap", "badlen", "undecodable"}
 Extras     == {"none", "gnosis", "service", "optimism"}
 Layouts    == {"rich", "solo"}
 StoredCls  == {"none", "wrong1", "wrongAll", "validAll"}
@@ -121,6 +133,9 @@ StoredShareSenders(recv, r) == IF recv.shares = "k2" /\ r \in WorldRanks THEN {N
 ----------------------------------------------------------------------------
 (* shcrypto *)
 Decodes(k)       == k # "undecodable"           \* EpochSecretKey(Share).Unmarshal succeeds
+(* the checks are made PER ENTRY, each token against its own identity: a token made for another
+   identity of the same message ("swap") fails like any other foreign token, although the sum
+   of all tokens of the message may equal the sum of the genuine ones *)
 ShareVerifies(k) == k = "valid"                 \* VerifyEpochSecretKeyShare against PublicKeyShares[snd]
 KeyVerifies(k)   == k = "valid"                 \* VerifyEpochSecretKey against the eon public key
 
